@@ -42,7 +42,11 @@ namespace smt
                     throw std::invalid_argument("not a valid json");
                 std::string id;
                 while (is.peek() != '\"')
+                {
+                    if (is.peek() == std::istream::traits_type::eof())
+                        throw std::invalid_argument("not a valid json"); // unterminated string..
                     id += is.get();
+                }
                 is.get();
                 is >> std::ws;
                 if (is.get() != ':')
@@ -148,7 +152,11 @@ namespace smt
             is.get();
             std::string id;
             while (is.peek() != '\"')
+            {
+                if (is.peek() == std::istream::traits_type::eof())
+                    throw std::invalid_argument("not a valid json"); // unterminated string..
                 id += is.get();
+            }
             is.get();
             return json(new string_val(id));
         }
